@@ -1087,6 +1087,11 @@ def build_module(modname, filename=None):
     if ms is None:
         return {}
     fault = (world.plan.get('modules') or {}).get(modname, ms.get('fault'))
+    if fault and fault.get('child_only') and not world.is_child:
+        # importable where the run starts, not in a layer subprocess (a
+        # module that depends on the working directory, on a resource only
+        # one process can hold ...)
+        fault = None
     if fault:
         what = fault.get('what', 'raise')
         if what == 'raise':
